@@ -298,7 +298,9 @@ func checkC18(c *hx.Checker) {
 		for ni, node := range mp.Graph.Node {
 			ni := ni
 			if len(node.Input) > 0 {
-				mutate(fmt.Sprintf("node%d.inputs-shortened", ni), func(m *onnx.ModelProto) { m.Graph.Node[ni].Input = m.Graph.Node[ni].Input[:len(m.Graph.Node[ni].Input)-1] })
+				mutate(fmt.Sprintf("node%d.inputs-shortened", ni), func(m *onnx.ModelProto) {
+					m.Graph.Node[ni].Input = m.Graph.Node[ni].Input[:len(m.Graph.Node[ni].Input)-1]
+				})
 				mutate(fmt.Sprintf("node%d.input-empty", ni), func(m *onnx.ModelProto) { m.Graph.Node[ni].Input[0] = "" })
 			}
 			mutate(fmt.Sprintf("node%d.outputs-dropped", ni), func(m *onnx.ModelProto) { m.Graph.Node[ni].Output = nil })
